@@ -553,10 +553,23 @@ func partR(r *mc.Run, pcs []uint64) {
 // ---------------------------------------------------------------------------------------------
 // S: riscv.Split32BitImmediate (low12, high20, err) — not used by asm, same contract
 
-func partS(r *mc.Run, all bool) {
-	// all: every int32; otherwise every value of magnitude < 2^22, and for every 20-bit upper part
-	// the 16 low parts around the 0x800 carry boundary and the ends
+func partS(r *mc.Run, thorough bool) {
+	// every 20-bit upper part x a set of low parts (the 0x800 carry boundary, the ends, bit
+	// patterns), and every value of magnitude < 2^k. Not all 2^32: the function builds an error
+	// value for every input that does not fit 12 bits (~0.5 us each), and it is an extra.
 	lows := []int64{0, 1, 2, 0x7fe, 0x7ff, 0x800, 0x801, 0x802, 0xffd, 0xffe, 0xfff, 0x400, 0xc00, 0x555, 0xaaa, 0x100}
+	smallChunks := 8 // x 2^20 values centred on zero
+	if thorough {
+		lows = lows[:0]
+		for l := int64(0); l < 0x1000; l++ {
+			if l < 8 || l >= 0xff8 || (l >= 0x7f0 && l < 0x810) || l&0xff == 0 || l&0xff == 0xff || l == 0x555 || l == 0xaaa {
+				lows = append(lows, l)
+			}
+		}
+		smallChunks = 128
+	}
+	k := 19 + bits.Len(uint(smallChunks)) - 1
+	r.Bound("S_values", fmt.Sprintf("every upper 20-bit part x %d low parts, plus every value in [-2^%d, 2^%d)", len(lows), k, k))
 	nchunks := 4096
 	var total atomic.Int64
 	mc.ParallelFor(nchunks, func(ci int) {
@@ -592,23 +605,16 @@ func partS(r *mc.Run, all bool) {
 				}
 			}
 		}
-		if all {
-			base := int64(ci)<<20 - 1<<31
+		// 256 upper parts per chunk
+		for u := int64(ci) * 256; u < int64(ci+1)*256; u++ {
+			for _, l := range lows {
+				one(int64(int32(uint32(u)<<12 | uint32(l))))
+			}
+		}
+		if ci < smallChunks { // small magnitudes: chunks of 2^20 values centred on zero
+			base := int64(ci)<<20 - int64(smallChunks)<<19
 			for o := int64(0); o < 1<<20; o++ {
 				one(base + o)
-			}
-		} else {
-			// 256 upper parts per chunk
-			for u := int64(ci) * 256; u < int64(ci+1)*256; u++ {
-				for _, l := range lows {
-					one(int64(int32(uint32(u)<<12 | uint32(l))))
-				}
-			}
-			if ci < 8 { // magnitudes below 2^22: chunks of 2^20 values
-				base := int64(ci)<<20 - 1<<22
-				for o := int64(0); o < 1<<20; o++ {
-					one(base + o)
-				}
 			}
 		}
 		total.Add(n)
@@ -1102,11 +1108,11 @@ func main() {
 	if strings.Contains(parts, "L") {
 		partL(r, mc.Pick(r, 4, 1), mc.Pick(r, int64(2), int64(6)))
 	}
-	if strings.Contains(parts, "S") {
-		partS(r, r.Thorough())
-	}
 	if strings.Contains(parts, "R") {
 		partR(r, pcsR)
+	}
+	if strings.Contains(parts, "S") {
+		partS(r, r.Thorough())
 	}
 
 	for _, e := range harnessErrs {
